@@ -220,6 +220,27 @@ func init() {
 					continue
 				}
 				n++
+				if cnt, e, ok := strings.Cut(ev, "*"); ok { // "<count>*<event>": the event repeated, one after the other, by one goroutine
+					k := atoi(cnt)
+					side, id := e[1], uint32(atoi(e[2:]))
+					op := ops.dial
+					if e[0] == 'A' {
+						op = ops.accept
+					}
+					d.goIn(dom(side), fmt.Sprintf("e%d:%s", n, ev), func() {
+						fails := 0
+						for i := 0; i < k; i++ {
+							if err := op(side, id); err != nil {
+								fails++
+								if strings.HasPrefix(err.Error(), "MISROUTE") {
+									x.Fail("S", "e%d:%s: %v", n, ev, err)
+								}
+							}
+						}
+						x.Obs("e%d:%s fails=%d", n, ev, fails)
+					})
+					continue
+				}
 				issue(fmt.Sprintf("e%d:%s", n, ev), ev, false)
 			}
 			// let the history play out, then the fresh matched pair
@@ -230,6 +251,8 @@ func init() {
 			// two fresh ids at once: an accept nobody dials (it must time out, with nothing delivered to it) ...
 			if ops.kind == "mux" {
 				issue("fresh:Ap91", "Ap91", false)
+				// ... and a dial nobody accepts (it stays pending while the matched pair below is established)
+				issue("fresh:Dh92", "Dh92", false)
 			}
 			// ... and the matched pair
 			issue("fresh:Ap90", "Ap90", true)
@@ -320,6 +343,11 @@ func init() {
 						}
 					}
 				}
+			}
+			// very many repeated dials to one pending id (far beyond any per-connection limit one might think of), then the
+			// usual fresh pair next to an unmatched accept and an unmatched dial
+			if tier == "mass" {
+				return []explore.Params{{"kind": "mux", "hist": "Dh7,1300*Dh7"}, {"kind": "mux", "hist": "Dp7,1300*Dp7"}}
 			}
 			// accepts and dials issued after, or racing with, the close of the connection: each returns by itself
 			for _, kind := range []string{"mux", "grpc", "grpcmux"} {
